@@ -319,12 +319,27 @@ def run_side(case, which):
     log = []
     program = PROGRAM_FLAVOURS[case.get("given_as", "def")](make_program(case, ctx, log))
     with loop_mode(ctx, "hooks"):
+        maker = a.contextmanager if which == "a" else contextlib.asynccontextmanager
+
+        def composed(inner):
+            # "wrapped": the manager is not used directly but from within ANOTHER generator-based manager of the same
+            # kind that merely passes it through - what the inner one reports (also a protocol RuntimeError chained to
+            # the block's exception) reaches the block's owner as if there were no wrapper
+            if not case.get("wrapped") or case["block"] == "GeneratorExit":
+                return inner
+
+            async def passthrough(*args, **kwargs):
+                async with inner(*args, **kwargs) as bound:
+                    yield bound
+
+            return maker(passthrough)
+
         if which == "a":
-            coro = use(a.contextmanager(program), case, log)
+            coro = use(composed(a.contextmanager(program)), case, log)
         elif case["block"] == "GeneratorExit":
             coro = deviation_model(program, case, log)
         else:
-            coro = use(contextlib.asynccontextmanager(program), case, log)
+            coro = use(composed(contextlib.asynccontextmanager(program)), case, log)
         outcome = run(ctx, coro)
         result = expect_return(outcome, "C13/program")
         if which == "a":
@@ -404,6 +419,7 @@ def variations(draw):
             "call": draw(st.sampled_from(sorted(CALLS))), "body_call": draw(st.sampled_from(sorted(CALLS))),
             "in_handler": draw(st.booleans()), "reuse": draw(st.sampled_from([False, False, True])),
             "warnings": draw(st.sampled_from(["default", "default", "error"])),
+            "wrapped": draw(st.sampled_from([False, False, True])),
             "given_as": draw(st.sampled_from(sorted(PROGRAM_FLAVOURS) + ["def", "def"]))}
 
 
